@@ -20,6 +20,9 @@ PAYLOADS = {
     "non-ascii": "é漢字ß",
     "line-separator": "a b",
     "hash-raw": 'a"#b',
+    # what would end a raw string literal, with a backslash in front (a writer that prefers raw strings for backslashes)
+    "backslash-then-raw-string-end": 'C\\"#.x(), r#"y',
+    "raw-string-end-with-hashes": 'a\\"##b"###c',
     # alphanumeric for char::is_alphanumeric, but neither identifier characters nor XML name characters
     "non-identifier-alphanumerics": "m²₂½①",
     "digits-first": "9³x",
@@ -127,7 +130,10 @@ WEIRD_NAMES = ["été", "漢字", "a.b", "a-b", "_lead", "x.1", "naïve-Name", "
                "option", "string", "date", "dateTime", "language", "int", "boolean", "Restrictions", "MultiRef", "SoapError",
                "Header", "Body", "Envelope", "Fault",
                # reserved names wrapped in separators that case conversion drops
-               "_self", "self_", "_Option", "Vec-", "string.", "__default", "-rc-", "Self."]
+               "_self", "self_", "_Option", "Vec-", "string.", "__default", "-rc-", "Self.",
+               # names that case conversion empties or leaves digit-led, and name characters of XML that are not identifier
+               # characters of Rust (U+2070-218F are name start characters: H₂O, U+2040 is a name character)
+               "_", "__", "_1", "_1abc", "_-_", "H₂O", "x₂", "a⁀b", "ⅷ", "_._"]
 
 
 def weird_name_matrix():
